@@ -7,6 +7,30 @@ use std::borrow::Cow;
 
 impl TestFunction {
     pub fn apply<'a, T: Queryable>(&self, state: State<'a, T>) -> State<'a, T> {
+        #[cfg(feature = "verif-hooks")]
+        if crate::verif::armed() {
+            let (name, fn_args): (String, Vec<&FnArg>) = match self {
+                TestFunction::Length(a) => ("length".to_string(), vec![&**a]),
+                TestFunction::Count(a) => ("count".to_string(), vec![a]),
+                TestFunction::Value(a) => ("value".to_string(), vec![a]),
+                TestFunction::Match(a, b) => ("match".to_string(), vec![a, b]),
+                TestFunction::Search(a, b) => ("search".to_string(), vec![a, b]),
+                TestFunction::Custom(n, args) => (n.clone(), args.iter().collect()),
+            };
+            let args = crate::verif::muted(|| {
+                fn_args
+                    .iter()
+                    .map(|a| crate::verif::operand(&a.process(state.clone())))
+                    .collect::<Vec<_>>()
+            });
+            let out = crate::verif::reenter(|| self.apply(state));
+            crate::verif::emit(crate::verif::Event::Func {
+                name,
+                args,
+                result: crate::verif::operand(&out),
+            });
+            return out;
+        }
         match self {
             TestFunction::Length(arg) => length(arg.process(state)),
             TestFunction::Count(arg) => count(arg.process(state)),
